@@ -11,7 +11,7 @@ from collections import Counter
 from fractions import Fraction as F
 
 from . import model as M
-from .bench import Bench, selector_arg
+from .bench import Bench, selector_arg, slice_of
 from .common import Violation, HarnessError
 from .world import fingerprint, fp_container, fp_plate, fp_diff
 
@@ -127,7 +127,7 @@ class RecipeRun:
             sel = ref[1]
             if sel.get('k') == 'all':
                 return h
-            return h[selector_arg(sel, h)]
+            return slice_of(h, sel)
         return h
 
     def eager_ref(self, ref, cur):
@@ -139,7 +139,7 @@ class RecipeRun:
             sel = ref[1]
             if sel.get('k') == 'all':
                 return o
-            return o[selector_arg(sel, o)]
+            return slice_of(o, sel)
         return o
 
     def cells_of(self, ref, cur):
